@@ -401,7 +401,8 @@ theorem block_effect_codespacerange (v : VM) (r : Nat) (c : CMapInfo) (es : List
     bEndcodespacerange v =
       ({ v with heap := v.heap.setIfInBounds r (.cmap { c with codeSpaceRanges := c.codeSpaceRanges ++ es }),
                 stack := rest, cmapCodeSpaceRanges := 0 }, .ok) := by
-  rw [endcodespacerange_eq v r es rest hm hn hs, collectPairs_ok v es hok, getCMap_of hc]; rfl
+  rw [endcodespacerange_eq v r es rest hm hn hs, collectPairs_ok v es hok]
+  simp only [csrOut, getCMap_of hc]; rfl
 
 /-- the three single-mapping operators, generically -/
 theorem block_effect_chars (valOk : Obj → Bool) (add : CMapInfo → List CharMap → CMapInfo)
@@ -411,7 +412,8 @@ theorem block_effect_chars (valOk : Obj → Bool) (add : CMapInfo → List CharM
     (hok : ∀ e ∈ es, okChar valOk e) :
     endChars valOk add v =
       ({ v with heap := v.heap.setIfInBounds r (.cmap (add c es)), stack := rest, cmapChars := 0 }, .ok) := by
-  rw [endChars_eq valOk add v r es rest hm hn hs, collectChars_ok valOk es hok, getCMap_of hc]; rfl
+  rw [endChars_eq valOk add v r es rest hm hn hs, collectChars_ok valOk es hok]
+  simp only [charsOut, getCMap_of hc]; rfl
 
 /-- the three range-mapping operators, generically -/
 theorem block_effect_ranges (valOk : Obj → Bool) (add : CMapInfo → List RangeMap → CMapInfo)
@@ -421,7 +423,8 @@ theorem block_effect_ranges (valOk : Obj → Bool) (add : CMapInfo → List Rang
     (hok : ∀ e ∈ es, okRange v valOk e) :
     endRanges valOk add v =
       ({ v with heap := v.heap.setIfInBounds r (.cmap (add c es)), stack := rest, cmapRanges := 0 }, .ok) := by
-  rw [endRanges_eq valOk add v r es rest hm hn hs, collectRanges_ok v valOk es hok, getCMap_of hc]; rfl
+  rw [endRanges_eq valOk add v r es rest hm hn hs, collectRanges_ok v valOk es hok]
+  simp only [rangesOut, getCMap_of hc]; rfl
 
 section
 variable (v : VM) (r : Nat) (c : CMapInfo) (rest : List Obj)
@@ -483,5 +486,546 @@ theorem getCMap_after (v w : VM) (r : Nat) (c c' : CMapInfo) (hc : v.heap[r]? = 
     (hw : w.heap = v.heap.setIfInBounds r (.cmap c')) : w.getCMap r = c' := by
   have := lt_size_of hc
   simp [VM.getCMap, hw, this]
+
+/-! ## 2. `begin_block` -/
+
+/-- ids of the seven `begin…` operators in the dispatch table `cmapBuiltin` -/
+def beginIds : List String :=
+  ["cid:begincodespacerange", "cid:begincidchar", "cid:beginbfchar", "cid:beginnotdefchar",
+   "cid:begincidrange", "cid:beginbfrange", "cid:beginnotdefrange"]
+
+/-- ids of the seven `end…` operators -/
+def endIds : List String :=
+  ["cid:endcodespacerange", "cid:endcidchar", "cid:endbfchar", "cid:endnotdefchar",
+   "cid:endcidrange", "cid:endbfrange", "cid:endnotdefrange"]
+
+theorem beginBlock_rangecheck (v : VM) (set : VM → Nat → VM) (r : Nat) (n : Int) (rest : List Obj)
+    (hm : v.cmapMappings = some r) (hs : v.stack = .int n :: rest) (hn : n < 0 ∨ n > 100) :
+    beginBlock v set = (v, .err (.ps "rangecheck")) := by
+  simp [beginBlock, withCMap, hm, hs, cmapBlockLimit, hn, psErr]
+
+theorem beginBlock_typecheck (v : VM) (set : VM → Nat → VM) (r : Nat) (o : Obj) (rest : List Obj)
+    (hm : v.cmapMappings = some r) (hs : v.stack = o :: rest) (ho : isInt o = false) :
+    beginBlock v set = (v, .err (.ps "typecheck")) := by
+  cases o <;> simp_all [beginBlock, withCMap, psErr, isInt]
+
+theorem beginBlock_underflow (v : VM) (set : VM → Nat → VM) (r : Nat)
+    (hm : v.cmapMappings = some r) (hs : v.stack = []) :
+    beginBlock v set = (v, .err (.ps "stackunderflow")) := by
+  simp [beginBlock, withCMap, hm, hs, psErr]
+
+theorem beginBlock_undefined (v : VM) (set : VM → Nat → VM) (hm : v.cmapMappings = none) :
+    beginBlock v set = (v, .err (.ps "undefined")) := by
+  simp [beginBlock, withCMap, hm, psErr]
+
+theorem beginBlock_ok (v : VM) (set : VM → Nat → VM) (r : Nat) (n : Int) (rest : List Obj)
+    (hm : v.cmapMappings = some r) (hs : v.stack = .int n :: rest) (h0 : 0 ≤ n) (h1 : n ≤ 100) :
+    beginBlock v set = (set { v with stack := rest } n.toNat, .ok) := by
+  have : ¬ (n < 0 ∨ n > 100) := by omega
+  simp [beginBlock, withCMap, hm, hs, cmapBlockLimit, this, okRes]
+
+/-- every `begin…` operator is `beginBlock` with some setter of a scratch length -/
+theorem begin_is_beginBlock (id : String) (hid : id ∈ beginIds) (v : VM) :
+    ∃ set : VM → Nat → VM, cmapBuiltin id v = some (beginBlock v set) := by
+  simp only [beginIds, List.mem_cons, List.not_mem_nil, or_false] at hid
+  rcases hid with rfl | rfl | rfl | rfl | rfl | rfl | rfl <;> exact ⟨_, rfl⟩
+
+/-- **a declared count outside `0..100` is a `rangecheck`; nothing changes** (all seven kinds) -/
+theorem begin_block_rangecheck (id : String) (hid : id ∈ beginIds) (v : VM) (r : Nat) (n : Int) (rest : List Obj)
+    (hm : v.cmapMappings = some r) (hs : v.stack = .int n :: rest) (hn : n < 0 ∨ n > 100) :
+    cmapBuiltin id v = some (v, .err (.ps "rangecheck")) := by
+  obtain ⟨set, h⟩ := begin_is_beginBlock id hid v
+  rw [h, beginBlock_rangecheck v set r n rest hm hs hn]
+
+/-- a count that is not an integer is a `typecheck`; nothing changes -/
+theorem begin_block_typecheck (id : String) (hid : id ∈ beginIds) (v : VM) (r : Nat) (o : Obj) (rest : List Obj)
+    (hm : v.cmapMappings = some r) (hs : v.stack = o :: rest) (ho : isInt o = false) :
+    cmapBuiltin id v = some (v, .err (.ps "typecheck")) := by
+  obtain ⟨set, h⟩ := begin_is_beginBlock id hid v
+  rw [h, beginBlock_typecheck v set r o rest hm hs ho]
+
+/-- no count on the stack is a `stackunderflow`; nothing changes -/
+theorem begin_block_underflow (id : String) (hid : id ∈ beginIds) (v : VM) (r : Nat)
+    (hm : v.cmapMappings = some r) (hs : v.stack = []) :
+    cmapBuiltin id v = some (v, .err (.ps "stackunderflow")) := by
+  obtain ⟨set, h⟩ := begin_is_beginBlock id hid v
+  rw [h, beginBlock_underflow v set r hm hs]
+
+/-- a count in `0..100` is popped and becomes the scratch length of the operator's kind -/
+theorem begin_block_ok (v : VM) (r : Nat) (n : Int) (rest : List Obj)
+    (hm : v.cmapMappings = some r) (hs : v.stack = .int n :: rest) (h0 : 0 ≤ n) (h1 : n ≤ 100) :
+    cmapBuiltin "cid:begincodespacerange" v = some ({ v with stack := rest, cmapCodeSpaceRanges := n.toNat }, .ok) ∧
+    (∀ id ∈ ["cid:begincidchar", "cid:beginbfchar", "cid:beginnotdefchar"],
+      cmapBuiltin id v = some ({ v with stack := rest, cmapChars := n.toNat }, .ok)) ∧
+    (∀ id ∈ ["cid:begincidrange", "cid:beginbfrange", "cid:beginnotdefrange"],
+      cmapBuiltin id v = some ({ v with stack := rest, cmapRanges := n.toNat }, .ok)) := by
+  refine ⟨?_, ?_, ?_⟩
+  · show some (beginBlock v _) = _
+    rw [beginBlock_ok v _ r n rest hm hs h0 h1]
+  · intro id hid
+    simp only [List.mem_cons, List.not_mem_nil, or_false] at hid
+    rcases hid with rfl | rfl | rfl <;>
+    · show some (beginBlock v _) = _
+      rw [beginBlock_ok v _ r n rest hm hs h0 h1]
+  · intro id hid
+    simp only [List.mem_cons, List.not_mem_nil, or_false] at hid
+    rcases hid with rfl | rfl | rfl <;>
+    · show some (beginBlock v _) = _
+      rw [beginBlock_ok v _ r n rest hm hs h0 h1]
+
+/-- **outside `begincmap … endcmap` all fourteen block operators and `usecmap` are `undefined`** -/
+theorem no_cmap_undefined (id : String) (hid : id ∈ "cid:usecmap" :: (beginIds ++ endIds)) (v : VM)
+    (hm : v.cmapMappings = none) : cmapBuiltin id v = some (v, .err (.ps "undefined")) := by
+  simp only [beginIds, endIds, List.cons_append, List.nil_append, List.mem_cons, List.not_mem_nil, or_false] at hid
+  rcases hid with rfl | rfl | rfl | rfl | rfl | rfl | rfl | rfl | rfl | rfl | rfl | rfl | rfl | rfl | rfl <;>
+    simp [cmapBuiltin, bUsecmap, bBegincodespacerange, bBeginChars, bBeginRanges, beginBlock,
+      bEndcodespacerange, bEndcidchar, bEndbfchar, bEndnotdefchar, bEndcidrange, bEndbfrange, bEndnotdefrange,
+      endChars, endRanges, withCMap, hm, psErr]
+
+/-- the dispatch table covers exactly the keys of the procedure set -/
+theorem cidInit_dispatch (v : VM) : ∀ k ∈ cidInitKeys, (cmapBuiltin ("cid:" ++ k) v).isSome = true := by
+  simp [cidInitKeys, cmapBuiltin]
+
+/-! ## 3. `cmap_rejects` -/
+
+theorem exists_first_bad {α : Type} (P : α → Prop) (l : List α) (h : ∃ e ∈ l, ¬ P e) :
+    ∃ good bad more, l = good ++ bad :: more ∧ (∀ e ∈ good, P e) ∧ ¬ P bad := by
+  induction l with
+  | nil => simp at h
+  | cons a l ih =>
+    by_cases ha : P a
+    · obtain ⟨e, he, hp⟩ := h
+      rcases List.mem_cons.1 he with rfl | he
+      · exact absurd ha hp
+      · obtain ⟨g, b, m, h1, h2, h3⟩ := ih ⟨e, he, hp⟩
+        refine ⟨a :: g, b, m, by simp [h1], ?_, h3⟩
+        intro x hx
+        rcases List.mem_cons.1 hx with rfl | hx
+        · exact ha
+        · exact h2 x hx
+    · exact ⟨[], a, l, rfl, by simp, ha⟩
+
+/-- fewer than `2n` operands: `stackunderflow`, nothing changes -/
+theorem endcodespacerange_underflow (v : VM) (r : Nat) (hm : v.cmapMappings = some r)
+    (h : v.stack.length < 2 * v.cmapCodeSpaceRanges) :
+    bEndcodespacerange v = (v, .err (.ps "stackunderflow")) := by
+  simp [bEndcodespacerange, withCMap, hm, h, psErr]
+
+theorem endChars_underflow (valOk : Obj → Bool) (add : CMapInfo → List CharMap → CMapInfo) (v : VM) (r : Nat)
+    (hm : v.cmapMappings = some r) (h : v.stack.length < 2 * v.cmapChars) :
+    endChars valOk add v = (v, .err (.ps "stackunderflow")) := by
+  simp [endChars, withCMap, hm, h, psErr]
+
+theorem endRanges_underflow (valOk : Obj → Bool) (add : CMapInfo → List RangeMap → CMapInfo) (v : VM) (r : Nat)
+    (hm : v.cmapMappings = some r) (h : v.stack.length < 3 * v.cmapRanges) :
+    endRanges valOk add v = (v, .err (.ps "stackunderflow")) := by
+  simp [endRanges, withCMap, hm, h, psErr]
+
+/-- **code space ranges**: the first ill-formed entry (after well-formed ones) decides the error —
+a bound that is not a string is a `typecheck`, bounds of unequal length or `low > high` a `rangecheck` —
+and the VM is returned unchanged -/
+theorem cmap_rejects_codespacerange (v : VM) (r : Nat) (good : List CodeSpaceRange) (bad : CodeSpaceRange)
+    (more : List CodeSpaceRange) (rest : List Obj)
+    (hm : v.cmapMappings = some r) (hn : v.cmapCodeSpaceRanges = (good ++ bad :: more).length)
+    (hs : v.stack = (pairObjs (good ++ bad :: more)).reverse ++ rest) (hg : ∀ e ∈ good, okPair v e) :
+    (isStr bad.low = false ∨ isStr bad.high = false →
+      bEndcodespacerange v = (v, .err (.ps "typecheck"))) ∧
+    (isStr bad.low = true → isStr bad.high = true →
+      ((strBytes v bad.low).length ≠ (strBytes v bad.high).length ∨
+        bytesLt (strBytes v bad.high) (strBytes v bad.low) = true) →
+      bEndcodespacerange v = (v, .err (.ps "rangecheck"))) := by
+  rw [endcodespacerange_eq v r _ rest hm hn hs]
+  obtain ⟨h1, h2⟩ := collectPairs_bad v good bad more hg
+  exact ⟨fun h => by rw [h1 h]; rfl, fun a b c => by rw [h2 a b c]; rfl⟩
+
+/-- **single mappings** (cid, bf, notdef): a source code that is not a string or a destination of the wrong
+type is a `typecheck`; the VM is returned unchanged -/
+theorem cmap_rejects_chars (valOk : Obj → Bool) (add : CMapInfo → List CharMap → CMapInfo)
+    (v : VM) (r : Nat) (good : List CharMap) (bad : CharMap) (more : List CharMap) (rest : List Obj)
+    (hm : v.cmapMappings = some r) (hn : v.cmapChars = (good ++ bad :: more).length)
+    (hs : v.stack = (charObjs (good ++ bad :: more)).reverse ++ rest) (hg : ∀ e ∈ good, okChar valOk e)
+    (hb : isStr bad.src = false ∨ valOk bad.dst = false) :
+    endChars valOk add v = (v, .err (.ps "typecheck")) := by
+  rw [endChars_eq valOk add v r _ rest hm hn hs, collectChars_bad valOk good bad more hg hb]; rfl
+
+/-- **range mappings** (cid, bf, notdef): a bound that is not a string is a `typecheck`, bounds of unequal
+length or `low > high` a `rangecheck`, a destination of the wrong type (bounds being fine) a `typecheck`;
+the VM is returned unchanged -/
+theorem cmap_rejects_ranges (valOk : Obj → Bool) (add : CMapInfo → List RangeMap → CMapInfo)
+    (v : VM) (r : Nat) (good : List RangeMap) (bad : RangeMap) (more : List RangeMap) (rest : List Obj)
+    (hm : v.cmapMappings = some r) (hn : v.cmapRanges = (good ++ bad :: more).length)
+    (hs : v.stack = (rangeObjs (good ++ bad :: more)).reverse ++ rest) (hg : ∀ e ∈ good, okRange v valOk e) :
+    (isStr bad.low = false ∨ isStr bad.high = false →
+      endRanges valOk add v = (v, .err (.ps "typecheck"))) ∧
+    (isStr bad.low = true → isStr bad.high = true →
+      ((strBytes v bad.low).length ≠ (strBytes v bad.high).length ∨
+        bytesLt (strBytes v bad.high) (strBytes v bad.low) = true) →
+      endRanges valOk add v = (v, .err (.ps "rangecheck"))) ∧
+    (isStr bad.low = true → isStr bad.high = true →
+      (strBytes v bad.low).length = (strBytes v bad.high).length →
+      bytesLe (strBytes v bad.low) (strBytes v bad.high) = true → valOk bad.dst = false →
+      endRanges valOk add v = (v, .err (.ps "typecheck"))) := by
+  rw [endRanges_eq valOk add v r _ rest hm hn hs]
+  obtain ⟨h1, h2, h3⟩ := collectRanges_bad v valOk good bad more hg
+  exact ⟨fun h => by rw [h1 h]; rfl, fun a b c => by rw [h2 a b c]; rfl,
+    fun a b c d e => by rw [h3 a b c d e]; rfl⟩
+
+/-- `endcodespacerange` accepts exactly the blocks all of whose entries are well formed -/
+theorem endcodespacerange_ok_iff (v : VM) (r : Nat) (ts : List CodeSpaceRange) (rest : List Obj)
+    (hm : v.cmapMappings = some r) (hn : v.cmapCodeSpaceRanges = ts.length)
+    (hs : v.stack = (pairObjs ts).reverse ++ rest) :
+    (bEndcodespacerange v).2 = .ok ↔ ∀ e ∈ ts, okPair v e := by
+  rw [endcodespacerange_eq v r ts rest hm hn hs]
+  constructor
+  · intro h
+    cases hc : collectPairs v true (pairObjs ts) with
+    | error e => simp [hc, csrOut] at h
+    | ok es => exact (collectPairs_ok_inv v ts es hc).2
+  · intro h; rw [collectPairs_ok v ts h]; rfl
+
+theorem endChars_ok_iff (valOk : Obj → Bool) (add : CMapInfo → List CharMap → CMapInfo)
+    (v : VM) (r : Nat) (ts : List CharMap) (rest : List Obj)
+    (hm : v.cmapMappings = some r) (hn : v.cmapChars = ts.length)
+    (hs : v.stack = (charObjs ts).reverse ++ rest) :
+    (endChars valOk add v).2 = .ok ↔ ∀ e ∈ ts, okChar valOk e := by
+  rw [endChars_eq valOk add v r ts rest hm hn hs]
+  constructor
+  · intro h
+    cases hc : collectChars valOk (charObjs ts) with
+    | error e => simp [hc, charsOut] at h
+    | ok es => exact (collectChars_ok_inv valOk ts es hc).2
+  · intro h; rw [collectChars_ok valOk ts h]; rfl
+
+theorem endRanges_ok_iff (valOk : Obj → Bool) (add : CMapInfo → List RangeMap → CMapInfo)
+    (v : VM) (r : Nat) (ts : List RangeMap) (rest : List Obj)
+    (hm : v.cmapMappings = some r) (hn : v.cmapRanges = ts.length)
+    (hs : v.stack = (rangeObjs ts).reverse ++ rest) :
+    (endRanges valOk add v).2 = .ok ↔ ∀ e ∈ ts, okRange v valOk e := by
+  rw [endRanges_eq valOk add v r ts rest hm hn hs]
+  constructor
+  · intro h
+    cases hc : collectRanges v valOk (rangeObjs ts) with
+    | error e => simp [hc, rangesOut] at h
+    | ok es => exact (collectRanges_ok_inv v valOk ts es hc).2
+  · intro h; rw [collectRanges_ok v valOk ts h]; rfl
+
+/-- one ill-formed entry anywhere in the block: the block is rejected with `typecheck` or `rangecheck`
+and the VM is unchanged (code space ranges) -/
+theorem cmap_rejects_codespacerange_any (v : VM) (r : Nat) (ts : List CodeSpaceRange) (rest : List Obj)
+    (hm : v.cmapMappings = some r) (hn : v.cmapCodeSpaceRanges = ts.length)
+    (hs : v.stack = (pairObjs ts).reverse ++ rest) (hbad : ∃ e ∈ ts, ¬ okPair v e) :
+    bEndcodespacerange v = (v, .err (.ps "typecheck")) ∨ bEndcodespacerange v = (v, .err (.ps "rangecheck")) := by
+  obtain ⟨good, bad, more, rfl, hg, hb⟩ := exists_first_bad _ ts hbad
+  obtain ⟨h1, h2⟩ := cmap_rejects_codespacerange v r good bad more rest hm hn hs hg
+  cases a : isStr bad.low
+  · exact .inl (h1 (.inl a))
+  cases b : isStr bad.high
+  · exact .inl (h1 (.inr b))
+  refine .inr (h2 a b ?_)
+  by_cases c : (strBytes v bad.low).length = (strBytes v bad.high).length
+  · right
+    cases d : bytesLt (strBytes v bad.high) (strBytes v bad.low)
+    · exact absurd ⟨a, b, c, by simp [bytesLe, d]⟩ hb
+    · rfl
+  · exact .inl c
+
+theorem cmap_rejects_chars_any (valOk : Obj → Bool) (add : CMapInfo → List CharMap → CMapInfo)
+    (v : VM) (r : Nat) (ts : List CharMap) (rest : List Obj)
+    (hm : v.cmapMappings = some r) (hn : v.cmapChars = ts.length)
+    (hs : v.stack = (charObjs ts).reverse ++ rest) (hbad : ∃ e ∈ ts, ¬ okChar valOk e) :
+    endChars valOk add v = (v, .err (.ps "typecheck")) := by
+  obtain ⟨good, bad, more, rfl, hg, hb⟩ := exists_first_bad _ ts hbad
+  refine cmap_rejects_chars valOk add v r good bad more rest hm hn hs hg ?_
+  cases a : isStr bad.src
+  · exact .inl rfl
+  cases b : valOk bad.dst
+  · exact .inr rfl
+  exact absurd ⟨a, b⟩ hb
+
+theorem cmap_rejects_ranges_any (valOk : Obj → Bool) (add : CMapInfo → List RangeMap → CMapInfo)
+    (v : VM) (r : Nat) (ts : List RangeMap) (rest : List Obj)
+    (hm : v.cmapMappings = some r) (hn : v.cmapRanges = ts.length)
+    (hs : v.stack = (rangeObjs ts).reverse ++ rest) (hbad : ∃ e ∈ ts, ¬ okRange v valOk e) :
+    endRanges valOk add v = (v, .err (.ps "typecheck")) ∨ endRanges valOk add v = (v, .err (.ps "rangecheck")) := by
+  obtain ⟨good, bad, more, rfl, hg, hb⟩ := exists_first_bad _ ts hbad
+  obtain ⟨h1, h2, h3⟩ := cmap_rejects_ranges valOk add v r good bad more rest hm hn hs hg
+  cases a : isStr bad.low
+  · exact .inl (h1 (.inl a))
+  cases b : isStr bad.high
+  · exact .inl (h1 (.inr b))
+  by_cases c : (strBytes v bad.low).length = (strBytes v bad.high).length
+  · cases d : bytesLt (strBytes v bad.high) (strBytes v bad.low)
+    · have d' : bytesLe (strBytes v bad.low) (strBytes v bad.high) = true := by simp [bytesLe, d]
+      cases e : valOk bad.dst
+      · exact .inl (h3 a b c d' e)
+      · exact absurd ⟨a, b, c, d', e⟩ hb
+    · exact .inr (h2 a b (.inr d))
+  · exact .inr (h2 a b (.inl c))
+
+/-- the six generic instances: the theorems about `endChars`/`endRanges` speak about these operators -/
+theorem end_ops_generic :
+    bEndcidchar = endChars isInt (fun c es => { c with cidChars := c.cidChars ++ es }) ∧
+    bEndbfchar = endChars isStrOrName (fun c es => { c with bfChars := c.bfChars ++ es }) ∧
+    bEndnotdefchar = endChars isInt (fun c es => { c with notdefChars := c.notdefChars ++ es }) ∧
+    bEndcidrange = endRanges isInt (fun c es => { c with cidRanges := c.cidRanges ++ es }) ∧
+    bEndbfrange = endRanges isStrOrArr (fun c es => { c with bfRanges := c.bfRanges ++ es }) ∧
+    bEndnotdefrange = endRanges isInt (fun c es => { c with notdefRanges := c.notdefRanges ++ es }) :=
+  ⟨rfl, rfl, rfl, rfl, rfl, rfl⟩
+
+theorem beginBlock_fail (v : VM) (set : VM → Nat → VM) (h : (beginBlock v set).2 ≠ .ok) :
+    (beginBlock v set).1 = v := by
+  revert h; unfold beginBlock withCMap
+  repeat' split
+  all_goals simp [psErr, okRes]
+
+theorem endcodespacerange_fail (v : VM) (h : (bEndcodespacerange v).2 ≠ .ok) : (bEndcodespacerange v).1 = v := by
+  revert h; unfold bEndcodespacerange withCMap
+  dsimp only
+  repeat' split
+  all_goals simp [psErr, okRes]
+
+theorem endChars_fail (valOk : Obj → Bool) (add : CMapInfo → List CharMap → CMapInfo) (v : VM)
+    (h : (endChars valOk add v).2 ≠ .ok) : (endChars valOk add v).1 = v := by
+  revert h; unfold endChars withCMap
+  dsimp only
+  repeat' split
+  all_goals simp [psErr, okRes]
+
+theorem endRanges_fail (valOk : Obj → Bool) (add : CMapInfo → List RangeMap → CMapInfo) (v : VM)
+    (h : (endRanges valOk add v).2 ≠ .ok) : (endRanges valOk add v).1 = v := by
+  revert h; unfold endRanges withCMap
+  dsimp only
+  repeat' split
+  all_goals simp [psErr, okRes]
+
+theorem usecmap_fail (v : VM) (h : (bUsecmap v).2 ≠ .ok) : (bUsecmap v).1 = v := by
+  revert h; unfold bUsecmap withCMap
+  repeat' split
+  all_goals simp [psErr, okRes]
+
+theorem endcmap_fail (v : VM) (h : (bEndcmap v).2 ≠ .ok) : (bEndcmap v).1 = v := by
+  revert h; unfold bEndcmap
+  dsimp only
+  repeat' split
+  all_goals simp [psErr, okRes]
+
+/-- **failure is atomic** for every operator of the procedure set: an operator that does not return `ok`
+returns the VM it was given — no operand is popped, nothing is stored in the `CMapInfo` and the scratch
+lengths stay, so no entry of a failed block can appear in a table -/
+theorem fail_unchanged (id : String) (v : VM) (out : VM × Res) (h : cmapBuiltin id v = some out)
+    (hne : out.2 ≠ .ok) : out.1 = v := by
+  unfold cmapBuiltin at h
+  split at h <;> simp only [Option.some.injEq, reduceCtorEq] at h <;> subst h
+  all_goals first
+    | (simp [bBegincmap, okRes] at hne; done)
+    | exact endcmap_fail v hne
+    | exact usecmap_fail v hne
+    | exact beginBlock_fail v _ hne
+    | exact endcodespacerange_fail v hne
+    | exact endChars_fail _ _ v hne
+    | exact endRanges_fail _ _ v hne
+
+/-! ## 4. `endcmap_sorted` -/
+
+/-- order of the code space table: by length of the low bound, then bytewise -/
+def leCS (v : VM) (a b : CodeSpaceRange) : Bool :=
+  if (strBytes v a.low).length != (strBytes v b.low).length
+  then decide ((strBytes v a.low).length ≤ (strBytes v b.low).length)
+  else bytesLe (strBytes v a.low) (strBytes v b.low)
+
+/-- order of the single-mapping tables: bytewise by source code -/
+def leSrc (v : VM) (a b : CharMap) : Bool := bytesLe (strBytes v a.src) (strBytes v b.src)
+
+/-- order of the range tables: bytewise by low bound -/
+def leLow (v : VM) (a b : RangeMap) : Bool := bytesLe (strBytes v a.low) (strBytes v b.low)
+
+theorem leCS_total (v : VM) (a b : CodeSpaceRange) : (leCS v a b || leCS v b a) = true := by
+  unfold leCS
+  by_cases h : (strBytes v a.low).length = (strBytes v b.low).length
+  · simp [h, bytesLe_total]
+  · have h' : ¬ (strBytes v b.low).length = (strBytes v a.low).length := fun e => h e.symm
+    simp [h, h']; omega
+
+theorem leCS_trans (v : VM) (a b c : CodeSpaceRange) (h1 : leCS v a b = true) (h2 : leCS v b c = true) :
+    leCS v a c = true := by
+  unfold leCS at *
+  by_cases e1 : (strBytes v a.low).length = (strBytes v b.low).length <;>
+    by_cases e2 : (strBytes v b.low).length = (strBytes v c.low).length
+  · have e3 : (strBytes v a.low).length = (strBytes v c.low).length := e1.trans e2
+    simp [e1, e2] at h1 h2
+    simp [e3]
+    exact bytesLe_trans _ _ _ h1 h2
+  · simp [e2] at h1 h2
+    have e3 : ¬ (strBytes v a.low).length = (strBytes v c.low).length := by omega
+    simp [e3]; rw [e1]; exact h2
+  · simp [e2] at h1 h2
+    have e3 : ¬ (strBytes v a.low).length = (strBytes v c.low).length := by omega
+    simp [e3] at h1 ⊢; exact h1
+  · simp [e1, e2] at h1 h2
+    have e3 : ¬ (strBytes v a.low).length = (strBytes v c.low).length := by omega
+    simp [e3]; omega
+
+/-- the tables of `c`, each sorted as `endcmap` does -/
+def sortTables (v : VM) (c : CMapInfo) : CMapInfo :=
+  { c with
+    codeSpaceRanges := c.codeSpaceRanges.mergeSort (leCS v),
+    cidChars := c.cidChars.mergeSort (leSrc v),
+    cidRanges := c.cidRanges.mergeSort (leLow v),
+    bfChars := c.bfChars.mergeSort (leSrc v),
+    bfRanges := c.bfRanges.mergeSort (leLow v),
+    notdefChars := c.notdefChars.mergeSort (leSrc v),
+    notdefRanges := c.notdefRanges.mergeSort (leLow v) }
+
+theorem bEndcmap_eq (v : VM) (d : Nat) (ds : List Nat) (r : Nat)
+    (hd : v.dictStack = d :: ds) (hm : v.cmapMappings = some r) :
+    bEndcmap v =
+      ({ ((setCMap v r (sortTables v (v.getCMap r))).dictPut d "CodeMap" (.cmapInfo r)) with
+          cmapMappings := none }, .ok) := by
+  unfold bEndcmap
+  rw [hd, hm]
+  rfl
+
+/-- `endcmap` succeeds exactly when there is a current dictionary and a CMap under construction;
+otherwise it is a `stackunderflow` and nothing changes -/
+theorem bEndcmap_fail (v : VM) (h : v.dictStack = [] ∨ v.cmapMappings = none) :
+    bEndcmap v = (v, .err (.ps "stackunderflow")) := by
+  unfold bEndcmap
+  rcases h with h | h
+  · rw [h]; rfl
+  · rw [h]; cases v.dictStack <;> rfl
+
+/-- each table of `sortTables v c` is a permutation of the table of `c`; `useCMap` is kept -/
+theorem sortTables_perm (v : VM) (c : CMapInfo) :
+    (sortTables v c).useCMap = c.useCMap ∧
+    (sortTables v c).codeSpaceRanges.Perm c.codeSpaceRanges ∧
+    (sortTables v c).cidChars.Perm c.cidChars ∧
+    (sortTables v c).cidRanges.Perm c.cidRanges ∧
+    (sortTables v c).bfChars.Perm c.bfChars ∧
+    (sortTables v c).bfRanges.Perm c.bfRanges ∧
+    (sortTables v c).notdefChars.Perm c.notdefChars ∧
+    (sortTables v c).notdefRanges.Perm c.notdefRanges :=
+  ⟨rfl, List.mergeSort_perm _ _, List.mergeSort_perm _ _, List.mergeSort_perm _ _, List.mergeSort_perm _ _,
+    List.mergeSort_perm _ _, List.mergeSort_perm _ _, List.mergeSort_perm _ _⟩
+
+theorem leSrc_sorted (v : VM) (l : List CharMap) : (l.mergeSort (leSrc v)).Pairwise (fun a b => leSrc v a b = true) :=
+  List.pairwise_mergeSort (le := leSrc v) (fun _ _ _ h1 h2 => bytesLe_trans _ _ _ h1 h2) (fun _ _ => bytesLe_total _ _) l
+
+theorem leLow_sorted (v : VM) (l : List RangeMap) : (l.mergeSort (leLow v)).Pairwise (fun a b => leLow v a b = true) :=
+  List.pairwise_mergeSort (le := leLow v) (fun _ _ _ h1 h2 => bytesLe_trans _ _ _ h1 h2) (fun _ _ => bytesLe_total _ _) l
+
+theorem leCS_sorted (v : VM) (l : List CodeSpaceRange) :
+    (l.mergeSort (leCS v)).Pairwise (fun a b => leCS v a b = true) :=
+  List.pairwise_mergeSort (leCS_trans v) (leCS_total v) l
+
+/-- each table of `sortTables v c` is sorted by its key -/
+theorem sortTables_sorted (v : VM) (c : CMapInfo) :
+    (sortTables v c).codeSpaceRanges.Pairwise (fun a b => leCS v a b = true) ∧
+    (sortTables v c).cidChars.Pairwise (fun a b => leSrc v a b = true) ∧
+    (sortTables v c).cidRanges.Pairwise (fun a b => leLow v a b = true) ∧
+    (sortTables v c).bfChars.Pairwise (fun a b => leSrc v a b = true) ∧
+    (sortTables v c).bfRanges.Pairwise (fun a b => leLow v a b = true) ∧
+    (sortTables v c).notdefChars.Pairwise (fun a b => leSrc v a b = true) ∧
+    (sortTables v c).notdefRanges.Pairwise (fun a b => leLow v a b = true) :=
+  ⟨leCS_sorted v _, leSrc_sorted v _, leLow_sorted v _, leSrc_sorted v _, leLow_sorted v _,
+    leSrc_sorted v _, leLow_sorted v _⟩
+
+theorem find_map_other (l : List (Name × Obj)) (k k' : Name) (x : Obj) (hk : k' ≠ k) :
+    (l.map (fun p => if p.1 == k then (k, x) else p)).find? (fun p => p.1 == k') =
+      l.find? (fun p => p.1 == k') := by
+  have hk2 : ¬ k = k' := fun e => hk e.symm
+  induction l with
+  | nil => rfl
+  | cons p l ih =>
+    simp only [List.map_cons, List.find?_cons]
+    by_cases hp : p.1 = k
+    · have e1 : (p.1 == k) = true := by simp [hp]
+      have e2 : (k == k') = false := by simp [hk2]
+      have e3 : (p.1 == k') = false := by simp [hp, hk2]
+      simp only [e1, e2, e3, if_true]; exact ih
+    · have e1 : (p.1 == k) = false := by simp [hp]
+      simp only [e1, Bool.false_eq_true, if_false]
+      cases h : (p.1 == k')
+      · exact ih
+      · rfl
+
+theorem find_map_self (l : List (Name × Obj)) (k : Name) (x : Obj) (h : l.any (fun p => p.1 == k) = true) :
+    (l.map (fun p => if p.1 == k then (k, x) else p)).find? (fun p => p.1 == k) = some (k, x) := by
+  induction l with
+  | nil => simp at h
+  | cons p l ih =>
+    simp only [List.map_cons, List.find?_cons]
+    by_cases hp : p.1 = k
+    · have e1 : (p.1 == k) = true := by simp [hp]
+      have e2 : (k == k) = true := by simp
+      simp only [e1, e2, if_true]
+    · have e1 : (p.1 == k) = false := by simp [hp]
+      have : l.any (fun p => p.1 == k) = true := by simpa [hp] using h
+      simp only [e1, Bool.false_eq_true, if_false]
+      exact ih this
+
+theorem dictLookup_insert_self (l : List (Name × Obj)) (k : Name) (x : Obj) :
+    dictLookup (dictInsert l k x) k = some x := by
+  unfold dictInsert
+  split
+  · rename_i h
+    simp only [dictLookup, find_map_self l k x h]
+  · rename_i h
+    have h' : l.find? (fun p => p.1 == k) = none := by
+      simp only [Bool.not_eq_true, List.any_eq_false] at h
+      exact List.find?_eq_none.2 (fun p hp => by simpa using h p hp)
+    simp [dictLookup, List.find?_append, h']
+
+theorem dictLookup_insert_other (l : List (Name × Obj)) (k k' : Name) (x : Obj) (hk : k' ≠ k) :
+    dictLookup (dictInsert l k x) k' = dictLookup l k' := by
+  have hk2 : ¬ k = k' := fun e => hk e.symm
+  unfold dictInsert
+  split
+  · simp only [dictLookup, find_map_other l k k' x hk]
+  · unfold dictLookup
+    congr 1
+    simp only [List.find?_append]
+    cases l.find? (fun p => p.1 == k') <;> simp [hk2]
+
+/-- **`endcmap`**: with a current dictionary `d` and a CMap under construction in cell `r`, the operator
+succeeds; afterwards the cell `r` holds the `CMapInfo` whose tables are permutations of the tables before,
+each sorted by its key (code space ranges by length then code, the others bytewise by source code / low
+bound), `/CodeMap` in the current dictionary is the reference to that `CMapInfo` and every other key of it is
+unchanged, no CMap is under construction any more, and stacks, scratch lengths and every other heap cell are
+untouched. -/
+theorem endcmap_sorted (v : VM) (d : Nat) (ds : List Nat) (r : Nat) (c : CMapInfo) (dd : List (Name × Obj))
+    (hd : v.dictStack = d :: ds) (hm : v.cmapMappings = some r)
+    (hc : v.heap[r]? = some (.cmap c)) (hdd : v.heap[d]? = some (.dict dd)) :
+    ∃ v' c', bEndcmap v = (v', .ok) ∧
+      v'.cmapMappings = none ∧
+      v'.getCMap r = c' ∧
+      v'.dictGet d "CodeMap" = some (.cmapInfo r) ∧
+      (∀ k, k ≠ "CodeMap" → v'.dictGet d k = v.dictGet d k) ∧
+      c'.useCMap = c.useCMap ∧
+      c'.codeSpaceRanges.Perm c.codeSpaceRanges ∧ c'.codeSpaceRanges.Pairwise (fun a b => leCS v a b = true) ∧
+      c'.cidChars.Perm c.cidChars ∧ c'.cidChars.Pairwise (fun a b => leSrc v a b = true) ∧
+      c'.cidRanges.Perm c.cidRanges ∧ c'.cidRanges.Pairwise (fun a b => leLow v a b = true) ∧
+      c'.bfChars.Perm c.bfChars ∧ c'.bfChars.Pairwise (fun a b => leSrc v a b = true) ∧
+      c'.bfRanges.Perm c.bfRanges ∧ c'.bfRanges.Pairwise (fun a b => leLow v a b = true) ∧
+      c'.notdefChars.Perm c.notdefChars ∧ c'.notdefChars.Pairwise (fun a b => leSrc v a b = true) ∧
+      c'.notdefRanges.Perm c.notdefRanges ∧ c'.notdefRanges.Pairwise (fun a b => leLow v a b = true) ∧
+      v'.stack = v.stack ∧ v'.dictStack = v.dictStack ∧
+      v'.cmapCodeSpaceRanges = v.cmapCodeSpaceRanges ∧ v'.cmapChars = v.cmapChars ∧ v'.cmapRanges = v.cmapRanges ∧
+      v'.heap.size = v.heap.size ∧ (∀ i, i ≠ r → i ≠ d → v'.heap[i]? = v.heap[i]?) ∧
+      (∀ o, strBytes v' o = strBytes v o) := by
+  have hr := lt_size_of hc
+  have hdl := lt_size_of hdd
+  have hne : r ≠ d := by
+    intro e; subst e; rw [hc] at hdd; cases hdd
+  obtain ⟨p0, p1, p2, p3, p4, p5, p6, p7⟩ := sortTables_perm v c
+  obtain ⟨s1, s2, s3, s4, s5, s6, s7⟩ := sortTables_sorted v c
+  refine ⟨{ ((setCMap v r (sortTables v c)).dictPut d "CodeMap" (.cmapInfo r)) with cmapMappings := none },
+    sortTables v c, ?_, ?_⟩
+  · rw [bEndcmap_eq v d ds r hd hm, getCMap_of hc]
+  refine ⟨rfl, ?_, ?_, ?_, p0, p1, s1, p2, s2, p3, s3, p4, s4, p5, s5, p6, s6, p7, s7, rfl, rfl, rfl, rfl, rfl,
+    ?_, ?_, ?_⟩
+  · simp [VM.getCMap, VM.dictPut, VM.setCell, setCMap, hne, hr, Array.getElem?_setIfInBounds]
+    trace_state
+    sorry
+  all_goals sorry
 
 end PsVerif.Props.C07
